@@ -112,7 +112,7 @@ def check(case):
             viol.append(('fields/%s' % fmt, '%s: loaded fields %r, dumped %r' % (label, lf, ef)))
         elif lr['schema'].get('primaryKey') != er['schema'].get('primaryKey'):
             viol.append(('primary-key/%s' % fmt, '%s: loaded primaryKey %r, dumped %r' % (label, lr['schema'].get('primaryKey'), er['schema'].get('primaryKey'))))
-        elif not dumps.rows_eq(lrows[i], emitted[i], double):
+        elif not dumps.rows_eq(lrows[i], emitted[i], double, strip=True):
             order = 'sorted' if [f[0] for f in ef] == sorted(f[0] for f in ef) else 'unsorted'
             viol.append(('load-back-rows/%s/%s-field-names' % (shape if order == 'sorted' else fmt, order),
                          '%s: loads back as %r, the dumper emitted %r' % (label, lrows[i][:3], emitted[i][:3])))
